@@ -60,8 +60,8 @@ func init() {
 				New: "\tt.dialing[key] = result\n\n\tconn, err := t.dial(ctx, key, opts)\n\n\tresult.conn = conn\n\tresult.err = err\n\tclose(result.done)\n\n"},
 			{Name: "SSE connection removed from the table without the lock", File: sseTransportGo, Rule: "C18-R2", Key: "SSETransport.removeConn/write:SSETransport.conns",
 				Old: "\tt.mu.Lock()\n\tdelete(t.conns, conn)\n\tt.mu.Unlock()\n", New: "\tdelete(t.conns, conn)\n"},
-			{Name: "shutdown no longer guarded by the compare-and-swap", File: wsConnGo, Rule: "C18-R3", Key: "shutdown/once:",
-				Old: "\tif !c.closed.CompareAndSwap(false, true) {\n\t\treturn\n\t}\n\n\tc.log.Debug(\"wsConnection.shutdown\",", New: "\tc.closed.Store(true)\n\n\tc.log.Debug(\"wsConnection.shutdown\","},
+			{Name: "shutdown no longer guarded by the compare-and-swap", File: wsConnGo, Rule: "C18-R3", Key: "teardown/once:",
+				Old: "\tif !c.closed.CompareAndSwap(false, true) {\n\t\treturn\n\t}\n\tc.teardown(err)\n", New: "\tc.closed.Store(true)\n\tc.teardown(err)\n"},
 			{Name: "waiters woken before the dial error is stored", File: wsTransportGo, Rule: "C18-R3", Key: "publish-before-close:err",
 				Old: "\tresult.err = err\n\tclose(result.done)\n", New: "\tclose(result.done)\n\tresult.err = err\n"},
 			{Name: "early return on dial error before waking the waiters", File: wsTransportGo, Rule: "C18-R3", Key: "exit-after-create",
@@ -85,9 +85,9 @@ func init() {
 			{Name: "waiter watches the transport context instead of its own", File: wsTransportGo, Rule: "C18-R5", Key: "wait-with-own-ctx",
 				Old: "\t\tcase <-ctx.Done():\n\t\t\treturn nil, ctx.Err()\n\t\tcase <-result.done:\n", New: "\t\tcase <-t.ctx.Done():\n\t\t\treturn nil, ctx.Err()\n\t\tcase <-result.done:\n"},
 			{Name: "connection no longer unregisters itself when it closes", File: wsTransportGo, Rule: "C18-R6", Key: "dial/onEmpty-unregisters-own-key",
-				Old: "\t\tonEmpty:      func() { t.removeConn(key) },\n", New: ""},
+				Old: "\t\tonEmpty:      func() { t.removeConn(key, conn) },\n", New: "\t\tonEmpty:      func() { _ = conn },\n"},
 			{Name: "empty connection without idle timeout is never closed", File: wsConnGo, Rule: "C18-R6", Key: "removeSub/empty-leads-to-close",
-				Old: "\t\t} else {\n\t\t\tc.closeConn()\n\t\t}\n", New: "\t\t}\n"},
+				Old: "\t\t\tcloseNow = c.closed.CompareAndSwap(false, true)\n", New: "\t\t\tcloseNow = false\n"},
 			{Name: "subscribe tests closed before taking the routing lock", File: wsConnGo, Rule: "C18-R7", Key: "subscribe/admit-after-closed-check",
 				Old: "\tc.subsMu.Lock()\n\n\tif c.closed.Load() {\n\t\tc.subsMu.Unlock()\n\t\treturn nil, common.ErrConnectionClosed\n\t}\n", New: "\tif c.closed.Load() {\n\t\treturn nil, common.ErrConnectionClosed\n\t}\n\n\tc.subsMu.Lock()\n"},
 		},
